@@ -166,6 +166,15 @@ Qed.
 
 (* ---------- histories ---------- *)
 
+Lemma nth_set_nth_same' {A} (x d : A) : forall i l, nth i (set_nth i x d l) d = x.
+Proof. induction i as [|i IH]; intros [|y l]; cbn; auto. Qed.
+Lemma nth_set_nth_other' {A} (x d : A) : forall j i l, j <> i -> nth i (set_nth j x d l) d = nth i l d.
+Proof.
+  induction j as [|j IH]; intros [|i] [|y l] H; cbn; auto; try congruence.
+  - destruct i; reflexivity.
+  - rewrite IH by congruence. destruct i; reflexivity.
+Qed.
+
 Section Histories.
 Variable d : nat.          (* the level of the stack the tables sit on *)
 Variable Q : key.          (* the key space whose writes are inserted *)
@@ -178,13 +187,25 @@ Definition q_write (o : op) : Prop :=
   | _ => False
   end.
 
-(* the observed history: reads only through handles incomparable with Q; writes anywhere on level d *)
-Definition p_op (o : op) : Prop :=
-  match o with
-  | OGet h _ | OHas h _ | OIter h _ _ =>
-      h_d h = d /\ has_prefix (hpre h) Q = false /\ has_prefix Q (hpre h) = false
-  | OPut h _ _ | ODel h _ => h_d h = d
-  | _ => False
+Definition incomparable_h (h : handle) : Prop :=
+  h_d h = d /\ has_prefix (hpre h) Q = false /\ has_prefix Q (hpre h) = false.
+
+(* the observed history.  Reads, iterations and snapshots only through handles incomparable with Q
+   (and later reads of those snapshots); direct writes and batches (bound by an OBNew of this
+   history; building, write, reset, replay) anywhere on level d.  NOT covered: flush, drop, init,
+   NotFlushedPairs, Compact, Stat, live iterators, handles on other levels. *)
+Fixpoint p_hist (bound : list nat) (l : list op) : Prop :=
+  match l with
+  | [] => True
+  | o :: r =>
+      match o with
+      | OGet h _ | OHas h _ | OIter h _ _ | OSnap h => incomparable_h h /\ p_hist bound r
+      | OPut h _ _ | ODel h _ => h_d h = d /\ p_hist bound r
+      | OBNew b h => h_d h = d /\ p_hist (b :: bound) r
+      | OBPut b _ _ | OBDel b _ | OBWrite b | OBReset b | OBReplay b => In b bound /\ p_hist bound r
+      | OSGet _ _ | OSHas _ _ | OSIter _ _ _ => p_hist bound r
+      | _ => False
+      end
   end.
 
 Inductive inserted : list op -> list op -> Prop :=
@@ -192,53 +213,98 @@ Inductive inserted : list op -> list op -> Prop :=
 | ins_same o l1 l2 : inserted l1 l2 -> inserted (o :: l1) (o :: l2)
 | ins_extra w l1 l2 : q_write w -> inserted l1 l2 -> inserted l1 (w :: l2).
 
-Record sim (a b : sstate) : Prop := {
+Record sim (bound : list nat) (a b : sstate) : Prop := {
   sim_wf1 : swf (ss_store a);
   sim_wf2 : swf (ss_store b);
   sim_agree : agree_outside Q (sview (ssub d (ss_store a))) (sview (ssub d (ss_store b)));
   sim_b : ss_batches a = ss_batches b;
+  sim_bd : forall x, In x bound -> h_d (fst (sget_batch a x)) = d;
   sim_s : ss_snaps a = ss_snaps b;
   sim_l1 : ss_lives a = [];
   sim_l2 : ss_lives b = []
 }.
 
-Lemma sim_p_op lsafe a b o : sim a b -> p_op o ->
-  sim (fst (spec_run_op lsafe a o)) (fst (spec_run_op lsafe b o)) /\
-  snd (spec_run_op lsafe a o) = snd (spec_run_op lsafe b o).
+Definition bound_after (bound : list nat) (o : op) : list nat :=
+  match o with OBNew b _ => b :: bound | _ => bound end.
+
+Lemma sim_p_op lsafe bound a b o r : sim bound a b -> p_hist bound (o :: r) ->
+  sim (bound_after bound o) (fst (spec_run_op lsafe a o)) (fst (spec_run_op lsafe b o)) /\
+  snd (spec_run_op lsafe a o) = snd (spec_run_op lsafe b o) /\ p_hist (bound_after bound o) r.
 Proof.
-  intros [W1 W2 A Eb Es L1 L2] P.
-  assert (RD : forall h, h_d h = d -> has_prefix (hpre h) Q = false -> has_prefix Q (hpre h) = false ->
+  intros [W1 W2 A Eb Bd Es L1 L2] P.
+  assert (RD : forall h, incomparable_h h ->
              sview (sh_view h (ss_store a)) = sview (sh_view h (ss_store b))).
-  { intros h Hd H1 H2. rewrite !handle_view by auto. rewrite Hd.
+  { intros h (Hd & H1 & H2). rewrite !handle_view by auto. rewrite Hd.
     apply (agree_tv (hpre h) Q); auto using sview_sorted, swf_ssub. }
   assert (WR : forall h ops, h_d h = d ->
-             sim {| ss_store := sh_upd h (fun x => swrite x ops) (ss_store a); ss_batches := ss_batches a;
-                    ss_snaps := ss_snaps a; ss_lives := [] |}
-                 {| ss_store := sh_upd h (fun x => swrite x ops) (ss_store b); ss_batches := ss_batches b;
-                    ss_snaps := ss_snaps b; ss_lives := [] |}).
+             swf (sh_upd h (fun x => swrite x ops) (ss_store a)) /\
+             swf (sh_upd h (fun x => swrite x ops) (ss_store b)) /\
+             agree_outside Q (sview (ssub d (sh_upd h (fun x => swrite x ops) (ss_store a))))
+                             (sview (ssub d (sh_upd h (fun x => swrite x ops) (ss_store b))))).
   { intros h ops Hd.
     destruct (level_view_write h (ss_store a) ops W1) as [E1 W1'].
     destruct (level_view_write h (ss_store b) ops W2) as [E2 W2'].
-    constructor; cbn; auto. rewrite <- Hd, E1, E2. rewrite Hd.
+    repeat split; auto. rewrite <- Hd, E1, E2. rewrite Hd.
     apply agree_write; auto using sview_sorted, swf_ssub. }
-  destruct o; cbn in P; try contradiction; unfold spec_run_op; cbn.
-  - (* put *) unfold lives_after; cbn. rewrite L1, L2. cbn. split; [|reflexivity]. now apply WR.
-  - (* del *) unfold lives_after; cbn. rewrite L1, L2. cbn. split; [|reflexivity]. now apply WR.
-  - (* get *) destruct P as (Hd & H1 & H2). rewrite (RD h Hd H1 H2). split; [|reflexivity].
-    unfold lives_after; cbn. constructor; cbn; auto.
-  - (* has *) destruct P as (Hd & H1 & H2). rewrite (RD h Hd H1 H2). split; [|reflexivity].
-    unfold lives_after; cbn. constructor; cbn; auto.
-  - (* iter *) destruct P as (Hd & H1 & H2). rewrite (RD h Hd H1 H2). split; [|reflexivity].
-    unfold lives_after; cbn. constructor; cbn; auto.
+  unfold spec_run_op.
+  destruct o; cbn [p_hist] in P; try contradiction; cbn [spec_run_op1 bound_after];
+    unfold lives_after; cbn [op_kills_lives].
+  - (* put *) destruct P as [Hd P]. destruct (WR h [WPut k v] Hd) as (X1 & X2 & X3).
+    cbn. rewrite L1, L2. cbn. (split; [|split; auto]). constructor; cbn; auto.
+  - (* del *) destruct P as [Hd P]. destruct (WR h [WDel k] Hd) as (X1 & X2 & X3).
+    cbn. rewrite L1, L2. cbn. (split; [|split; auto]). constructor; cbn; auto.
+  - (* get *) destruct P as [Hh P]. cbn. rewrite (RD h Hh). (split; [|split; auto]). constructor; cbn; auto.
+  - (* has *) destruct P as [Hh P]. cbn. rewrite (RD h Hh). (split; [|split; auto]). constructor; cbn; auto.
+  - (* iter *) destruct P as [Hh P]. cbn. rewrite (RD h Hh). (split; [|split; auto]). constructor; cbn; auto.
+  - (* bnew *) destruct P as [Hd P]. cbn. (split; [|split; auto]). constructor; cbn; auto.
+    + now rewrite Eb.
+    + intros x [<-|Hx]; unfold sget_batch; cbn.
+      * now rewrite nth_set_nth_same'.
+      * destruct (Nat.eq_dec b0 x) as [->|N]; [now rewrite nth_set_nth_same'|].
+        rewrite nth_set_nth_other' by auto. now apply Bd.
+  - (* bput *) destruct P as [Hb P]. cbn. unfold sget_batch. rewrite <- Eb.
+    destruct (nth b0 (ss_batches a) (h0, [])) as [h l] eqn:Eq. cbn. (split; [|split; auto]).
+    constructor; cbn; auto.
+    + now rewrite Eb.
+    + intros x Hx. unfold sget_batch; cbn. destruct (Nat.eq_dec b0 x) as [->|N].
+      * rewrite nth_set_nth_same'. cbn. specialize (Bd x Hx). unfold sget_batch in Bd. now rewrite Eq in Bd.
+      * rewrite nth_set_nth_other' by auto. now apply Bd.
+  - (* bdel *) destruct P as [Hb P]. cbn. unfold sget_batch. rewrite <- Eb.
+    destruct (nth b0 (ss_batches a) (h0, [])) as [h l] eqn:Eq. cbn. (split; [|split; auto]).
+    constructor; cbn; auto.
+    + now rewrite Eb.
+    + intros x Hx. unfold sget_batch; cbn. destruct (Nat.eq_dec b0 x) as [->|N].
+      * rewrite nth_set_nth_same'. cbn. specialize (Bd x Hx). unfold sget_batch in Bd. now rewrite Eq in Bd.
+      * rewrite nth_set_nth_other' by auto. now apply Bd.
+  - (* bwrite *) destruct P as [Hb P]. cbn. unfold sget_batch. rewrite <- Eb.
+    pose proof (Bd b0 Hb) as Hd. unfold sget_batch in Hd.
+    destruct (nth b0 (ss_batches a) (h0, [])) as [h l] eqn:Eq. cbn in Hd.
+    destruct (WR h l Hd) as (X1 & X2 & X3).
+    cbn. rewrite L1, L2. cbn. (split; [|split; auto]). constructor; cbn; auto.
+  - (* breset *) destruct P as [Hb P]. cbn. unfold sget_batch. rewrite <- Eb.
+    destruct (nth b0 (ss_batches a) (h0, [])) as [h l] eqn:Eq. cbn. (split; [|split; auto]).
+    constructor; cbn; auto.
+    + now rewrite Eb.
+    + intros x Hx. unfold sget_batch; cbn. destruct (Nat.eq_dec b0 x) as [->|N].
+      * rewrite nth_set_nth_same'. cbn. specialize (Bd x Hx). unfold sget_batch in Bd. now rewrite Eq in Bd.
+      * rewrite nth_set_nth_other' by auto. now apply Bd.
+  - (* breplay *) destruct P as [Hb P]. cbn. unfold sget_batch. rewrite <- Eb.
+    destruct (nth b0 (ss_batches a) (h0, [])) as [h l] eqn:Eq. cbn. (split; [|split; auto]).
+    constructor; cbn; auto.
+  - (* snap *) destruct P as [Hh P]. cbn. rewrite (RD h Hh). (split; [|split; auto]).
+    constructor; cbn; auto. now rewrite Es.
+  - (* sget *) cbn. rewrite Es. (split; [|split; auto]). constructor; cbn; auto.
+  - (* shas *) cbn. rewrite Es. (split; [|split; auto]). constructor; cbn; auto.
+  - (* siter *) cbn. rewrite Es. (split; [|split; auto]). constructor; cbn; auto.
 Qed.
 
-Lemma sim_q_write lsafe a b w : sim a b -> q_write w ->
-  sim a (fst (spec_run_op lsafe b w)) /\ snd (spec_run_op lsafe b w) = [].
+Lemma sim_q_write lsafe bound a b w : sim bound a b -> q_write w ->
+  sim bound a (fst (spec_run_op lsafe b w)) /\ snd (spec_run_op lsafe b w) = [].
 Proof.
-  intros [W1 W2 A Eb Es L1 L2] P.
+  intros [W1 W2 A Eb Bd Es L1 L2] P.
   assert (WR : forall h ops, h_d h = d -> has_prefix Q (hpre h) = true ->
-             sim a {| ss_store := sh_upd h (fun x => swrite x ops) (ss_store b); ss_batches := ss_batches b;
-                      ss_snaps := ss_snaps b; ss_lives := [] |}).
+             sim bound a {| ss_store := sh_upd h (fun x => swrite x ops) (ss_store b); ss_batches := ss_batches b;
+                            ss_snaps := ss_snaps b; ss_lives := [] |}).
   { intros h ops Hd HQ.
     destruct (level_view_write h (ss_store b) ops W2) as [E2 W2'].
     constructor; cbn; auto. rewrite <- Hd, E2. rewrite Hd.
@@ -250,24 +316,24 @@ Proof.
     unfold lives_after; cbn; rewrite L2; cbn; (split; [|reflexivity]); now apply WR.
 Qed.
 
-Theorem spec_isolation_ops lsafe l1 l2 : inserted l1 l2 -> Forall p_op l1 ->
-  forall a b, sim a b -> spec_run_ops lsafe b l2 = spec_run_ops lsafe a l1.
+Theorem spec_isolation_ops lsafe l1 l2 : inserted l1 l2 ->
+  forall bound a b, p_hist bound l1 -> sim bound a b -> spec_run_ops lsafe b l2 = spec_run_ops lsafe a l1.
 Proof.
-  induction 1 as [|o l1 l2 H IH|w l1 l2 Hw H IH]; intros F a b S; [reflexivity| |].
-  - inversion F; subst. cbn [spec_run_ops].
-    destruct (sim_p_op lsafe a b o S H2) as [S' E].
-    destruct (spec_run_op lsafe a o) as [a' oa]. destruct (spec_run_op lsafe b o) as [b' ob'].
-    cbn in S', E. subst. f_equal. now apply IH.
+  induction 1 as [|o l1 l2 H IH|w l1 l2 Hw H IH]; intros bound a b F S; [reflexivity| |].
   - cbn [spec_run_ops].
-    destruct (sim_q_write lsafe a b w S Hw) as [S' E].
-    destruct (spec_run_op lsafe b w) as [b' ob']. cbn in S', E. subst. cbn. now apply IH.
+    destruct (sim_p_op lsafe bound a b o l1 S F) as (S' & E & F').
+    destruct (spec_run_op lsafe a o) as [a' oa]. destruct (spec_run_op lsafe b o) as [b' ob'].
+    cbn in S', E. subst. f_equal. eapply IH; eauto.
+  - cbn [spec_run_ops].
+    destruct (sim_q_write lsafe bound a b w S Hw) as [S' E].
+    destruct (spec_run_op lsafe b w) as [b' ob']. cbn in S', E. subst. cbn. eapply IH; eauto.
 Qed.
 
-Theorem spec_isolation lsafe ss0 l1 l2 : swf ss0 -> inserted l1 l2 -> Forall p_op l1 ->
+Theorem spec_isolation lsafe ss0 l1 l2 : swf ss0 -> inserted l1 l2 -> p_hist [] l1 ->
   spec_run lsafe ss0 l2 = spec_run lsafe ss0 l1.
 Proof.
   intros W I F. unfold spec_run. eapply spec_isolation_ops; eauto.
-  constructor; cbn; auto. intros k _. reflexivity.
+  constructor; cbn; auto; [intros k _; reflexivity | intros x []].
 Qed.
 
 End Histories.
@@ -288,7 +354,7 @@ Proof.
 Qed.
 
 Theorem model_isolation d Q lsafe ideal s0 ss0 l1 l2 : R s0 ss0 ->
-  inserted d Q l1 l2 -> Forall (p_op d Q) l1 -> Forall op_wf l1 -> Forall op_wf l2 ->
+  inserted d Q l1 l2 -> p_hist d Q [] l1 -> Forall op_wf l1 -> Forall op_wf l2 ->
   map erase (run lsafe ideal s0 l2) = map erase (run lsafe ideal s0 l1).
 Proof.
   intros HR I F W1 W2.
@@ -299,10 +365,12 @@ Qed.
 Example isolation_nonvacuous :
   let hp := {| h_d := 0; h_path := [[97%N]] |} in
   let hq := {| h_d := 0; h_path := [[98%N]; [0%N]] |} in
-  inserted 0 [98%N] [OPut hp [1%N] []; OGet hp [1%N]] [OPut hq [1%N] [2%N]; OPut hp [1%N] []; ODel hq []; OGet hp [1%N]]
-  /\ Forall (p_op 0 [98%N]) [OPut hp [1%N] []; OGet hp [1%N]].
+  let l1 := [OPut hp [1%N] []; OBNew 0 hp; OBPut 0 [2%N] [3%N]; OSnap hp; OBWrite 0; OGet hp [1%N]; OSIter 0 None None] in
+  inserted 0 [98%N] l1 (OPut hq [1%N] [2%N] :: OPut hp [1%N] [] :: OBNew 0 hp :: ODel hq [] :: skipn 2 l1)
+  /\ p_hist 0 [98%N] [] l1.
 Proof.
   split.
-  - apply ins_extra; [cbn; auto|]. apply ins_same. apply ins_extra; [cbn; auto|]. apply ins_same. constructor.
-  - repeat constructor.
+  - apply ins_extra; [cbn; auto|]. apply ins_same. apply ins_same. apply ins_extra; [cbn; auto|].
+    repeat apply ins_same. constructor.
+  - cbn. unfold incomparable_h. cbn. tauto.
 Qed.
